@@ -50,4 +50,32 @@ def Vel.calcR (v : Vel) : Res (Option Velocity) :=
         pure (some { vEw := a, vNs := b, vrate := r })
   | _ => .ok none
 
+/-! ## track angle and ground speed: generic in the number type
+
+`heading = atan2(v_ew, v_ns)·(360/2π)`, `+360` when negative; `speed = hypot(v_ew, v_ns)`.  The driver and the renderer
+instantiate this with `Float` (`floatTrack`), `Theorems/C07b` with `ℝ`. -/
+
+structure TrackOps (α : Type) where
+  add : α → α → α
+  mul : α → α → α
+  div : α → α → α
+  lit : Nat → α
+  ofInt : Int → α
+  pi : α
+  atan2 : α → α → α
+  sqrt : α → α
+  neg? : α → Bool                           -- `h < 0.0`
+
+def headingG {α : Type} (T : TrackOps α) (v : Velocity) : α :=
+  let h := T.mul (T.atan2 (T.ofInt v.vEw) (T.ofInt v.vNs)) (T.div (T.lit 360) (T.mul (T.lit 2) T.pi))
+  if T.neg? h then T.add h (T.lit 360) else h
+
+def speedG {α : Type} (T : TrackOps α) (v : Velocity) : α :=
+  let ew := T.ofInt v.vEw; let ns := T.ofInt v.vNs
+  T.sqrt (T.add (T.mul ew ew) (T.mul ns ns))
+
+def floatTrack : TrackOps Float :=
+  { add := (· + ·), mul := (· * ·), div := (· / ·), lit := Float.ofNat, ofInt := Float.ofInt,
+    pi := 3.14159265358979323846264338327950288, atan2 := Float.atan2, sqrt := Float.sqrt, neg? := fun h => h < 0.0 }
+
 end Adsb
